@@ -36,6 +36,11 @@ def gen_case(rng, opts=None):
             ops.append(("seek", o))
         elif r < 0.8:
             ops.append(("seekbegin",))
+        elif r < 0.86:
+            # the producer keeps writing while a consumer is in the middle of an iteration: after
+            # the k-th event delivered, m more events are sent; the iteration then goes on
+            ops.append(("iter_send", rng.choice([1, 1, 2, 3]), rng.choice([1, 2, 3])))
+            sent += 3
         else:
             ops.append(("iter",))
     ops.append(("iter",))
@@ -53,11 +58,24 @@ def run_case(case, workdir):
     os.makedirs(workdir)
     uri = workdir + "/bus.sqlite"
 
+    # the consumer's waiting loop runs on a virtual clock that only its own sleep() advances: the
+    # first pass always happens, an empty pass sleeps past the timeout (no dependence on machine load)
+    import datetime as _dtm
+
+    class VClock:
+        t = _dtm.datetime.now()
+
+    class _DT(_dtm.datetime):
+        @classmethod
+        def now(cls, tz=None):
+            return VClock.t
+
     class NoSleep:
         @staticmethod
         def sleep(x):
-            pass
+            VClock.t = VClock.t + _dtm.timedelta(seconds=x)
     cons_mod.time = NoSleep
+    cons_mod.datetime = _DT
     cons = cons_mod.SqliteConsumerPlugin({"uri": uri})
     cons.setTimeout(2)   # 2 ms
     prod = None
@@ -65,76 +83,112 @@ def run_case(case, workdir):
     obs = []
     truth = []
     purges = []
-    for op in case["ops"]:
+    aborted = None
+    for oi, op in enumerate(case["ops"]):
         kind = op[0]
-        if kind == "open":
-            if prod is not None:
-                prod.close()
-            before = sql_rows(uri)
-            prod = prod_mod.SqliteProducerPlugin({"uri": uri, "retention_in_days": op[1]})
-            t_open = time.time()
-            prod.open()
-            after = sql_rows(uri)
-            purges.append(([(i, int(round((t_open - ts) / DAY * 100))) for (i, ts) in before], [i for (i, ts) in after]))
-            obs.append(("none",))
-        elif kind == "send":
-            k = len(sent_json) + 1
-            ev = Event(evcategory="base", eventtype="added", objattrs={"n": k, "s": "é" * (k % 3), "l": [k, None, {"k": True}]})
-            ev.objtype, ev.objpkey = "T", k
-            sent_json.append(ident(ev))
-            prod.send(ev)
-            obs.append(("none",))
-        elif kind == "age":
-            db = sqlite3.connect(uri)
-            db.execute("UPDATE hermesmessages SET timestamp = timestamp - ?", (op[1] * DAY,))
-            db.commit()
-            db.close()
-            obs.append(("none",))
-        elif kind == "back":
-            # equivalent to the clock stepping back by op[1] days: every stored event becomes that much younger
-            db = sqlite3.connect(uri)
-            db.execute("UPDATE hermesmessages SET timestamp = timestamp + ?", (op[1] * DAY,))
-            db.commit()
-            db.close()
-            obs.append(("none",))
-        elif kind == "seek":
-            lo, nxt = 0, 0
-            if os.path.exists(uri):
+        try:
+            if kind == "open":
+                if prod is not None:
+                    prod.close()
+                before = sql_rows(uri)
+                prod = prod_mod.SqliteProducerPlugin({"uri": uri, "retention_in_days": op[1]})
+                t_open = time.time()
+                prod.open()
+                after = sql_rows(uri)
+                purges.append(([(i, int(round((t_open - ts) / DAY * 100))) for (i, ts) in before], [i for (i, ts) in after]))
+                obs.append(("none",))
+            elif kind == "send":
+                k = len(sent_json) + 1
+                ev = Event(evcategory="base", eventtype="added", objattrs={"n": k, "s": "é" * (k % 3), "l": [k, None, {"k": True}]})
+                ev.objtype, ev.objpkey = "T", k
+                sent_json.append(ident(ev))
+                prod.send(ev)
+                obs.append(("none",))
+            elif kind == "age":
                 db = sqlite3.connect(uri)
-                try:
-                    r = db.execute("SELECT min(msgid) FROM hermesmessages").fetchone()
-                    lo = r[0] or 0
-                    r = db.execute("SELECT seq FROM sqlite_sequence WHERE name='hermesmessages'").fetchone()
-                    nxt = (r[0] + 1) if r else 0
-                except sqlite3.Error:
-                    pass
+                db.execute("UPDATE hermesmessages SET timestamp = timestamp - ?", (op[1] * DAY,))
+                db.commit()
                 db.close()
-            truth.append((lo, nxt))
-            try:
-                cons.seek(op[1])
-                obs.append(("seek", "ok"))
-            except IndexError:
-                obs.append(("seek", "index"))
-            except IOError:
-                obs.append(("seek", "invalid"))
-            except sqlite3.Error:
-                obs.append(("seek", "invalid"))
-        elif kind == "seekbegin":
-            cons.seekToBeginning()
-            obs.append(("none",))
-        elif kind == "iter":
-            out = []
-            for ev in cons:
-                js = ident(ev)
-                pid = sent_json.index(js) + 1 if js in sent_json else 0
-                out.append((ev.offset, pid))
-            obs.append(("iter", out))
-    if prod is not None:
-        prod.close()
-    cons.close()
+                obs.append(("none",))
+            elif kind == "back":
+                # equivalent to the clock stepping back by op[1] days: every stored event becomes that much younger
+                db = sqlite3.connect(uri)
+                db.execute("UPDATE hermesmessages SET timestamp = timestamp + ?", (op[1] * DAY,))
+                db.commit()
+                db.close()
+                obs.append(("none",))
+            elif kind == "seek":
+                lo, nxt = 0, 0
+                if os.path.exists(uri):
+                    db = sqlite3.connect(uri)
+                    try:
+                        r = db.execute("SELECT min(msgid) FROM hermesmessages").fetchone()
+                        lo = r[0] or 0
+                        r = db.execute("SELECT seq FROM sqlite_sequence WHERE name='hermesmessages'").fetchone()
+                        nxt = (r[0] + 1) if r else 0
+                    except sqlite3.Error:
+                        pass
+                    db.close()
+                truth.append((lo, nxt))
+                try:
+                    cons.seek(op[1])
+                    obs.append(("seek", "ok"))
+                except IndexError:
+                    obs.append(("seek", "index"))
+                except IOError:
+                    obs.append(("seek", "invalid"))
+                except sqlite3.Error:
+                    obs.append(("seek", "invalid"))
+            elif kind == "seekbegin":
+                cons.seekToBeginning()
+                obs.append(("none",))
+            elif kind == "iter":
+                out, failed = [], None
+                try:
+                    for ev in cons:
+                        js = ident(ev)
+                        pid = sent_json.index(js) + 1 if js in sent_json else 0
+                        out.append((ev.offset, pid))
+                except sqlite3.Error as e:
+                    failed = f"the iteration raised {type(e).__name__}: {e}"
+                obs.append(("iter", out, 0, failed))
+            elif kind == "iter_send":
+                out, nsent, failed = [], 0, None
+                try:
+                    for ev in cons:
+                        js = ident(ev)
+                        pid = sent_json.index(js) + 1 if js in sent_json else 0
+                        out.append((ev.offset, pid))
+                        if len(out) == op[1] and prod is not None and failed is None and nsent == 0:
+                            for _ in range(op[2]):
+                                k = len(sent_json) + 1
+                                ev2 = Event(evcategory="base", eventtype="added", objattrs={"n": k, "s": "é" * (k % 3), "l": [k, None, {"k": True}]})
+                                ev2.objtype, ev2.objpkey = "T", k
+                                try:
+                                    prod.send(ev2)
+                                except Exception as e:  # noqa
+                                    failed = f"a send was refused ({type(e).__name__}: {e})"
+                                    break
+                                sent_json.append(ident(ev2))
+                                nsent += 1
+                except sqlite3.Error as e:
+                    failed = (failed + "; " if failed else "") + f"the iteration raised {type(e).__name__}: {e}"
+                obs.append(("iter", out, nsent, failed))
+        except Exception as e:  # noqa - a plugin operation raised: the history stops here and is reported
+            aborted = (oi, kind, f"{type(e).__name__}: {e}")
+            break
+
+    try:
+        if prod is not None:
+            prod.close()
+        cons.close()
+    except Exception:  # noqa
+        pass
     H.rmtree(workdir)
     obs.append(("truth", truth))
     obs.append(("purges", purges))
+    if aborted:
+        obs.append(("aborted",) + aborted)
     return obs
 
 
@@ -157,10 +211,17 @@ def ident(ev):
     return json.dumps(d, sort_keys=True)
 
 
+def next_iter_sends(obs, i):
+    ob = obs[i]
+    return ob[2] if ob[0] == "iter" and len(ob) > 2 else 0
+
+
 def case_to_gallina(case, obs):
     ops, outs = [], []
+    ops_src_done = []
     nsent = 0
-    for op in case["ops"]:
+    ndone = sum(1 for ob in obs if ob[0] in ("none", "seek", "iter"))
+    for op in case["ops"][:ndone]:
         k = op[0]
         if k == "open":
             ops.append(f"(BOpen {gZ(int(op[1] * 100))})")
@@ -175,8 +236,17 @@ def case_to_gallina(case, obs):
             ops.append(f"(BSeek {gZ(op[1])})")
         elif k == "seekbegin":
             ops.append("BSeekBegin")
+        elif k == "iter_send":
+            # rendered as what was done: the sends that really happened, then one iteration that
+            # delivered everything up to the end of the log
+            done = next_iter_sends(obs, len(ops_src_done))
+            for _ in range(done):
+                nsent += 1
+                ops.append(f"(BSend {gZ(nsent)})")
+            ops.append("BIter")
         else:
             ops.append("BIter")
+        ops_src_done.append(k)
     truth, purges = [], []
     for ob in obs:
         if ob[0] == "truth":
@@ -185,11 +255,14 @@ def case_to_gallina(case, obs):
         if ob[0] == "purges":
             purges = ob[1]
             continue
+        if ob[0] == "aborted":
+            continue
         if ob[0] == "none":
             outs.append("ONone")
         elif ob[0] == "seek":
             outs.append({"ok": "(OSeek SeekOk)", "index": "(OSeek SeekIndexError)", "invalid": "(OSeek SeekInvalid)"}[ob[1]])
         else:
+            outs.extend(["ONone"] * (ob[2] if len(ob) > 2 else 0))
             outs.append("(OIter " + glist(f"({gZ(o)},{gZ(p)})" for o, p in ob[1]) + ")")
     gp = glist("(" + glist(f"({gZ(i)},{gZ(a)})" for i, a in b) + "," + glist(gZ(i) for i in a2) + ")" for b, a2 in purges)
     return f"(BCase {glist(ops)} {glist(outs)} " + glist(f"({gZ(a)},{gZ(b)})" for a, b in truth) + f" {gp})"
